@@ -1114,6 +1114,7 @@ def desugar_iter_closures(d):
             kind = {"std::iter::Iterator::for_each": ("for_each", 1, 2), "std::iter::Iterator::try_for_each": ("try_for_each", 1, 2),
                     "std::option::Option::<T>::filter": ("filter", 1, 2), "std::option::Option::<T>::map": ("map", 1, 2),
                     "std::option::Option::<T>::map_or": ("map_or", 2, 3),
+                    "std::option::Option::<T>::unwrap_or_else": ("unwrap_or_else", 1, 2),
                     "std::ops::Fn::call": ("call", 0, 2), "std::ops::FnMut::call_mut": ("call", 0, 2), "std::ops::FnOnce::call_once": ("call", 0, 2)}.get(g)
             if kind is None or len(t.get("args", [])) != kind[2]:
                 continue
@@ -1144,7 +1145,7 @@ def desugar_iter_closures(d):
             if len(aggs) != 1 or aggs[0]["rv"].get("k") != "agg" or aggs[0]["rv"].get("ak") != "closure" or aggs[0]["rv"].get("def") not in bodies:
                 continue
             h = bodies[aggs[0]["rv"]["def"]]
-            if (kind != "call" and h.get("arg_count") != 2) or len(h["blocks"]) > 250:
+            if (kind not in ("call", "unwrap_or_else") and h.get("arg_count") != 2) or (kind == "unwrap_or_else" and h.get("arg_count") != 1) or len(h["blocks"]) > 250:
                 continue
             if kind == "call" and h["def"] == b["def"]:
                 continue
@@ -1226,6 +1227,32 @@ def desugar_iter_closures(d):
                 b["blocks"].append({"stmts": [{"k": "assign", "lhs": copy.deepcopy(t["dest"]), "rv": {"k": "use", "op": {"k": "move", "place": {"l": off_l, "p": [], "ty": ret_ty}}}, "line": line}],
                                     "term": {"k": "goto", "t": t["t"], "line": line}})   # RET
                 b["blocks"][ci]["term"] = {"k": "goto", "t": PRE, "line": line, "desugared": g}
+                done.append(h["def"])
+                continue
+            if kind == "unwrap_or_else":
+                # `opt.unwrap_or_else(|| e)`  ==>  match opt { Some(v) => v, None => e }
+                if it.get("k") not in ("move", "copy"):
+                    del b["locals"][off_l:]
+                    continue
+                n_blocks = len(h["blocks"])
+                SW0, SOME, RET, UNREACH = [off_b + n_blocks + k for k in range(4)]
+                for hb, blk in enumerate(h["blocks"]):
+                    nb = fix_places(_shift(blk, lmap, off_b))
+                    tt = nb.get("term")
+                    if tt and tt.get("k") == "return":
+                        nb["term"] = {"k": "goto", "t": RET, "line": tt.get("line", line)}
+                    b["blocks"].append(nb)
+                opt_pl = copy.deepcopy(it["place"])
+                disc_l = new_local("isize")
+                b["blocks"].append({"stmts": [{"k": "assign", "lhs": {"l": disc_l, "p": [], "ty": "isize"}, "rv": {"k": "discr", "place": copy.deepcopy(opt_pl)}, "line": line}],
+                                    "term": {"k": "switch", "op": {"k": "move", "place": {"l": disc_l, "p": [], "ty": "isize"}}, "targets": [[0, off_b], [1, SOME]], "otherwise": UNREACH, "line": line}})   # SW0
+                some_pl = {"l": opt_pl["l"], "p": list(opt_pl["p"]) + [{"dc": "Some", "v": 1}, {"f": 0, "n": "0", "adt": "std::option::Option", "v": "Some", "fty": ret_ty}], "ty": ret_ty}
+                b["blocks"].append({"stmts": [{"k": "assign", "lhs": copy.deepcopy(t["dest"]), "rv": {"k": "use", "op": {"k": "move", "place": some_pl}}, "line": line}],
+                                    "term": {"k": "goto", "t": t["t"], "line": line}})   # SOME
+                b["blocks"].append({"stmts": [{"k": "assign", "lhs": copy.deepcopy(t["dest"]), "rv": {"k": "use", "op": {"k": "move", "place": {"l": off_l, "p": [], "ty": ret_ty}}}, "line": line}],
+                                    "term": {"k": "goto", "t": t["t"], "line": line}})   # RET
+                b["blocks"].append({"stmts": [], "term": {"k": "unreachable", "line": line}})   # UNREACH
+                b["blocks"][ci]["term"] = {"k": "goto", "t": SW0, "line": line, "desugared": g}
                 done.append(h["def"])
                 continue
             if kind in ("map", "map_or"):
